@@ -80,12 +80,15 @@ Print Assumptions C21_resume.
 Theorem C21_resume_next_position : forall code p,
   (forall s, nth_error code p = Some s -> then_joined s = false -> next_colon code p = S p) /\
   (forall c a s', nth_error code p = Some (SIf c None) -> nth_error code (S p) = Some a ->
-     then_joined a = false -> (forall n, a <> SLine n) -> a <> SEndProg ->
-     nth_error code (S (S p)) = Some s' -> next_colon code p = S (S p)).
+     then_joined a = false -> (forall n, a <> SLine n) -> a <> SEndProg -> (forall j, a <> SElse j) ->
+     nth_error code (S (S p)) = Some s' -> next_colon code p = S (S p)) /\
+  (* ELSE is stored as `:ELSE`: it is itself the next statement (and skips the rest of the line) *)
+  (forall s j, nth_error code p = Some s -> nth_error code (S p) = Some (SElse j) -> next_colon code p = S p).
 Proof.
-  intros code p. split.
+  intros code p. split; [|split].
   - exact (next_colon_plain code p).
   - exact (next_colon_if code p).
+  - exact (next_colon_else code p).
 Qed.
 Print Assumptions C21_resume_next_position.
 
